@@ -287,7 +287,7 @@ func (i *Interpreter) extractBoilerplateMacro(sub *ast.SubroutineDeclaration) er
 		return nil
 	}
 
-	macroName := strings.ToUpper("fastly " + macro)
+	macroName := macro
 
 	var resolved []ast.Statement
 	// Find "FASTLY [macro]" comment and extract in infix comment of block statement
@@ -323,10 +323,16 @@ func (i *Interpreter) extractBoilerplateMacro(sub *ast.SubroutineDeclaration) er
 	return nil
 }
 
-func hasFastlyBoilerplateMacro(cs ast.Comments, macroName string) bool {
+// The macro format must be "#FASTLY [scope]", the same as the linter accepts.
+// An ordinary comment like "// Fastly recv processing" is not the macro.
+func hasFastlyBoilerplateMacro(cs ast.Comments, scope string) bool {
 	for _, c := range cs {
-		line := strings.TrimLeft(c.String(), " */#")
-		if strings.HasPrefix(strings.ToUpper(line), macroName) {
+		// Uppercase scope
+		if strings.HasPrefix(c.String(), "#FASTLY "+strings.ToUpper(scope)) {
+			return true
+		}
+		// lowercase scope
+		if strings.HasPrefix(c.String(), "#FASTLY "+strings.ToLower(scope)) {
 			return true
 		}
 	}
